@@ -6,6 +6,7 @@
 // Expected factors and solution were computed over the rationals.  The anchor-independent, bit-precise counterpart of
 // Verus unit mlpgsolve.  Bounded (4 frames, concrete values).
 //@harness name=solve_recovers_the_exact_solution tier=quick label=bounded(4-frames,width-3,concrete-exact-values) props=C05 timeout=900
+//@harness name=solve_recovers_the_exact_solution_width5 tier=quick label=bounded(6-frames,width-5,concrete-exact-values) props=C05 timeout=900
 use super::*;
 
 #[kani::proof]
@@ -23,5 +24,24 @@ fn solve_recovers_the_exact_solution() {
     // the matrix is left factored in place: D on the diagonal, L on the off-diagonals
     assert!(m.wuw[0][0] == 4.0 && m.wuw[1][0] == 4.0 && m.wuw[2][0] == 8.0 && m.wuw[3][0] == 4.0);
     assert!(m.wuw[0][1] == 0.5 && m.wuw[0][2] == 0.25 && m.wuw[1][1] == 0.5 && m.wuw[1][2] == 0.25 && m.wuw[2][1] == 0.5);
+    kani::cover!(true);
+}
+
+/// the same with four off-diagonals (width-5 dynamic windows): here every pair (i, j) of off-diagonal indices occurs
+/// in the elimination terms L_{t,t-j} L_{t+i,t-j} D_{t-j}, not just (1, 1)
+#[kani::proof]
+#[kani::unwind(10)]
+fn solve_recovers_the_exact_solution_width5() {
+    let mut m = MlpgMatrix {
+        win_size: 3,
+        length: 6,
+        width: 5,
+        wuw: vec![vec![4.0, 2.0, 1.0, -2.0, 0.5], vec![9.0, -3.5, -3.0, 4.25, -1.0], vec![6.25, 2.5, -0.875, -1.5, 0.0],
+                  vec![18.5, -8.75, -4.75, 0.0, 0.0], vec![14.3125, 5.0, 0.0, 0.0, 0.0], vec![8.125, 0.0, 0.0, 0.0, 0.0]],
+        wum: vec![4.0, -10.0, 26.0, -9.5, 37.25, 7.0],
+    };
+    let c = m.solve();
+    assert!(c.len() == 6 && c[0] == 1.0 && c[1] == -2.0 && c[2] == 3.0 && c[3] == 0.5 && c[4] == 4.0 && c[5] == -1.0);
+    assert!(m.wuw[0][0] == 4.0 && m.wuw[1][0] == 8.0 && m.wuw[2][0] == 4.0 && m.wuw[3][0] == 16.0 && m.wuw[4][0] == 8.0 && m.wuw[5][0] == 4.0);
     kani::cover!(true);
 }
